@@ -38,6 +38,23 @@ fn bucket_index(time: u64, n: u64, t: u64) -> u64 {
     let year = u128::from(n.max(1)) * u128::from(t.max(1));
     ((to_dur(time).as_nanos() % year) / u128::from(t.max(1))) as u64
 }
+/// bucket width `u64::MAX` stands for `Duration::MAX`: one bucket (n = 1) that spans the whole time axis, the only
+/// parameterisation in which a fetch can reach events scheduled for `Duration::MAX`
+pub const WHOLE_AXIS: u64 = u64::MAX;
+fn bucket_dur(t: u64) -> Duration {
+    if t == WHOLE_AXIS {
+        Duration::MAX
+    } else {
+        Duration::from_nanos(t)
+    }
+}
+fn from_dur(d: Duration) -> u64 {
+    if d == Duration::MAX {
+        NEVER
+    } else {
+        d.as_nanos() as u64
+    }
+}
 fn to_dur(time: u64) -> Duration {
     if time == NEVER {
         Duration::MAX
@@ -674,10 +691,14 @@ fn exec_typed_opt<P: Payload>(prog: &FesProgram, prop: &str, exact_page: bool) -
 #[allow(clippy::too_many_lines)]
 fn run_ops<P: Payload>(prog: &FesProgram, prop: &str, n: usize, t: u64, page: usize, info: &mut RunInfo) {
     let mut q: CQueue<P> = if page == 0 {
-        CQueue::new(n, Duration::from_nanos(t))
+        CQueue::new(n, bucket_dur(t))
     } else {
-        CQueue::verif_with_page_size(n, Duration::from_nanos(t), page)
+        CQueue::verif_with_page_size(n, bucket_dur(t), page)
     };
+    let whole_axis = t == WHOLE_AXIS;
+    if whole_axis {
+        info.probe("one_bucket_spanning_the_whole_time_axis");
+    }
     let mut entries: Vec<Entry<P>> = Vec::new();
     let mut now: u64 = 0;
     let mut pending: usize = 0;
@@ -712,7 +733,7 @@ fn run_ops<P: Payload>(prog: &FesProgram, prop: &str, n: usize, t: u64, page: us
     loop {
         let op: FesOp = if step < total_ops {
             prog.ops[step].clone()
-        } else if (prog.drain || want_c03) && pending > pending_never {
+        } else if (prog.drain || want_c03) && (pending > pending_never || (whole_axis && pending > 0)) {
             FesOp::Fetch
         } else {
             break;
@@ -873,7 +894,7 @@ fn run_ops<P: Payload>(prog: &FesProgram, prop: &str, n: usize, t: u64, page: us
                 th.push(31);
             }
             FesOp::Fetch => {
-                if pending > 0 && pending == pending_never {
+                if pending > 0 && pending == pending_never && !whole_axis {
                     // only events at Duration::MAX are left: out of reach of any fetch
                     th.push(41);
                     continue;
@@ -903,7 +924,10 @@ fn run_ops<P: Payload>(prog: &FesProgram, prop: &str, n: usize, t: u64, page: us
                     return;
                 }
                 let (payload, time) = q.fetch_next();
-                let time_ns = time.as_nanos() as u64;
+                let time_ns = from_dur(time);
+                if time_ns == NEVER {
+                    info.probe("event_at_duration_max_fetched");
+                }
                 if any_cancel {
                     fetch_after_cancel = true;
                 }
@@ -1024,7 +1048,7 @@ fn run_ops<P: Payload>(prog: &FesProgram, prop: &str, n: usize, t: u64, page: us
             if q.is_empty() != (pending == 0) {
                 bail!(Violation::new("C01", "len", format!("after op #{step} is_empty() = {} with {pending} pending", q.is_empty())));
             }
-            if q.time().as_nanos() as u64 != now {
+            if from_dur(q.time()) != now {
                 bail!(Violation::new("C01", "queue-time", format!("after op #{step} time() = {:?}, last fetched timestamp is {now} ns", q.time())));
             }
         }
@@ -1034,7 +1058,7 @@ fn run_ops<P: Payload>(prog: &FesProgram, prop: &str, n: usize, t: u64, page: us
                     // the scan window must stay on the bucket grid, else events near a bucket boundary are taken a lap late
                     if want_c01 {
                         let (t0, t1) = (snap.t0.as_nanos(), snap.t1.as_nanos());
-                        let tw = u128::from(t);
+                        let tw = bucket_dur(t).as_nanos();
                         let aligned = t1 == t0 + tw && t0 % tw == 0 && snap.head as u128 == (t0 / tw) % (n as u128);
                         let covers = t0 <= snap.t_current.as_nanos() && snap.t_current.as_nanos() <= t1;
                         if !aligned || !covers {
@@ -1299,5 +1323,16 @@ pub fn generate(prop: &str, rng: &mut Rng, tier: Tier) -> FesProgram {
         drop_panic = None;
         drain = rng.chance(1, 2);
     }
+    // now and then the calendar degenerates to one sorted list: a single bucket as wide as the whole time axis. There a
+    // fetch does reach the events scheduled for Duration::MAX, several of them (ties at the largest instant) included.
+    let (n, t_ns, inv_every) = if (prop == "C01" || prop == "C03") && rng.chance(1, 40) {
+        for _ in 0..2 + rng.small(6) {
+            let pos = rng.usize(ops.len() + 1);
+            ops.insert(pos, FesOp::Add { pat: Pat::Never, a: 0 });
+        }
+        (1, WHOLE_AXIS, 1)
+    } else {
+        (n, t_ns, inv_every)
+    };
     FesProgram { n, t_ns, page_size, payload, inv_every, ops, drain, drop_panic, drop_in_unwind, cancel_panic }
 }
